@@ -4,6 +4,8 @@
 
 #include "core.hpp"
 
+#include <initializer_list>
+
 namespace sim {
 
 // registry bookkeeping allocates (std::map nodes, strings): it is harness code running inside library calls,
@@ -392,6 +394,50 @@ struct Coarse {
     friend auto operator<=(Coarse const& a, Coarse const& b) -> bool { return !(b < a); }
 
     friend auto operator>=(Coarse const& a, Coarse const& b) -> bool { return !(a < b); }
+};
+
+// A type for which T(a, b) and T{a, b} mean different things (like std::vector): emplace-style functions must construct
+// it from their arguments with parentheses, as the std containers do.
+struct BagKey {
+    int n    = 0;
+    int e[4] = {0, 0, 0, 0};
+
+    BagKey() = default;
+
+    explicit BagKey(int count) // count zeros
+        : n(count < 4 ? count : 4)
+    {
+    }
+
+    BagKey(int count, int value) // count copies of value
+        : n(count < 4 ? count : 4)
+    {
+        for (int i = 0; i < n; ++i) {
+            e[i] = value;
+        }
+    }
+
+    BagKey(std::initializer_list<int> il) // the listed values
+    {
+        for (int x : il) {
+            if (n < 4) {
+                e[n++] = x;
+            }
+        }
+    }
+
+    [[nodiscard]] auto code() const -> long long
+    {
+        long long c = n;
+        for (int i = 0; i < 4; ++i) {
+            c = c * 16 + e[i];
+        }
+        return c;
+    }
+
+    friend auto operator<(BagKey const& a, BagKey const& b) -> bool { return a.code() < b.code(); }
+
+    friend auto operator==(BagKey const& a, BagKey const& b) -> bool { return a.code() == b.code(); }
 };
 
 // Element type that is NOT trivially copyable (user-provided copy / move operations) although its default constructor
